@@ -226,7 +226,12 @@ def pair_c16(job):
         sc = gen_cont(rng)
         T = sc["T"]
         k = rng.randint(1, 4)
-        splits = sorted(round(rng.uniform(0.05, 0.95) * T, 3) for _ in range(k)) + [T]
+        splits = sorted(round(rng.uniform(0.05, 0.95) * T, 3) for _ in range(k))
+        if rng.random() < 0.5:
+            splits.append(round(T * 0.9999, 6))     # a last window that (almost surely) contains no event
+        if rng.random() < 0.3:
+            splits.insert(0, 1e-9)                  # a first window before anything happens
+        splits = sorted(set(splits)) + [T]
         ciw.seed(seed)
         a = outcome(sim(sc))
         ciw.seed(seed)
